@@ -43,7 +43,8 @@ def main():
                 elif k == 'clear_output':
                     S.clear_output()
                 elif k == 'set_input':
-                    S.set_input(op['xs'])
+                    kw = {'clear': False} if op.get('keep') else {}
+                    (sb if op.get('via') == 'object' else S).set_input(op['xs'], **kw)
                 elif k == 'queue_input':
                     S.queue_input(*op['xs'])
                 elif k == 'clear_input':
